@@ -158,6 +158,13 @@ def outcomeJ (bag : Bag) (cli : Cli) (builder app : String) : Outcome → Json
       ("tasks", Json.arr (i.tasks.map (fun (n, t) => Json.arr #[Json.str n, taskAvailJ t])).toArray),
       ("entries", toJson i.entries)]
 
+/-- the `--info-export` file as nested arrays of pairs (the order of keys is part of the comparison) -/
+def insightsJ (l : List (Laze.Name × List (Laze.Name × Insight))) : Json :=
+  Json.arr (l.map (fun (b, apps) => Json.arr #[Json.str b, Json.arr (apps.map (fun (a, i) => Json.arr #[Json.str a,
+    Json.mkObj [("outfile", i.outfile),
+      ("modules", Json.arr (i.modules.map (fun (n, deps) => Json.arr #[Json.str n, toJson deps])).toArray)]])).toArray]
+    )).toArray
+
 def gerrJ : GErr → Json
   | .error k => if k.startsWith "need:" then Json.mkObj [("need", (k.drop 5).toString)] else Json.mkObj [("error", k)]
   | .panic s => Json.mkObj [("panic", s)]
@@ -189,4 +196,7 @@ def handleGen (j : Json) : Json :=
           | none => Json.mkObj [("bad", "empty failure list")]
       | .ok (.done r) => Json.mkObj [("ok", Json.mkObj [
           ("ninja", r.ninja st), ("files", toJson files),
+          ("insights", if jbool j "want_insights" then
+              (match insights (jtable j) (fun _ => 0) st bag args with | .ok l => insightsJ l | .error _ => Json.null)
+            else Json.null),
           ("builds", Json.arr (r.outcomes.map (fun (b, a, o) => outcomeJ bag args.cli b a o)).toArray)])]
